@@ -206,79 +206,65 @@ def _rename(ctx) -> None:
 
 
 def _keys(ctx) -> None:
+    """Vector.__setitem__ key forms, on the symx event log: every position recorded for the write phase that comes from the KEY
+    (int key, int vector, int list / tuple) is the key value normalised (`idx + n if idx < 0`) and range-checked (a raising
+    `not 0 <= idx < n` on the way); positions from masks / slices come from enumerate / range; unsupported key types raise."""
+    from ..sites2 import interp_of
+    from ..symx import NONE as SNONE
+    from ..symx import const, flatten_conds, show, subterms
     prog = ctx.prog
     f = prog.func("vector.Vector.__setitem__")
-    key = f.params[1]
-    chain = None
-    for s in f.body:
-        if isinstance(s, ast.If) and f"isinstance({key}, Vector)" in short(s.test) and "bool" in short(s.test):
-            chain = s
-    if chain is None:
-        raise AnalysisError("Vector.__setitem__: key dispatch chain not found")
-    forms = []
-    cur = chain
-    final_else = None
-    while True:
-        forms.append(cur)
-        if len(cur.orelse) == 1 and isinstance(cur.orelse[0], ast.If):
-            cur = cur.orelse[0]
-        else:
-            final_else = cur.orelse
-            break
-    tests = [short(b.test) for b in forms]
-    want = ["bool", "slice", f"isinstance({key}, int)", "int", "int"]
-    ok = len(forms) == 5 and "bool" in tests[0] and f"isinstance({key}, slice)" == tests[1] and tests[2] == f"isinstance({key}, int)" \
-        and "Vector" in tests[3] and "int" in tests[3] and ("list" in tests[4] or "tuple" in tests[4])
-    ctx.ob("c.key-forms", f, "dispatch", ok, f"key forms: {[t[:40] for t in tests]}", chain,
-           message=f"the key dispatch chain is {[t[:50] for t in tests]}; expected mask, slice, int, int vector, int list/tuple")
-    okf = bool(final_else) and isinstance(final_else[0], ast.Raise) and "SerifTypeError" in short(final_else[0])
-    ctx.ob("c.key-forms", f, "final-else", okf, "unsupported key types raise SerifTypeError", final_else[0] if final_else else chain,
+    it = interp_of(prog, f)
+    SELF = ("param", f.params[0])
+    keyp = ("param", f.params[1])
+    N = ("call", ("name", "len"), (SELF,), ())
+    # the recorded updates: appends of (position, value) pairs into one list of the function
+    recs = [e for e in it.events if e.kind == "call" and e.term[1][0] == "attr" and e.term[1][2] == "append" and e.term[1][1][0] == "obj"
+            and len(e.term[2]) == 1 and e.term[2][0][0] == "tuple" and len(e.term[2][0][1]) == 2]
+    if not recs:
+        raise AnalysisError("Vector.__setitem__: no recorded (position, value) update found")
+    classes = set()
+    for e in it.events:
+        for t, pol in flatten_conds(e.conds):
+            for x in subterms(t):
+                if x[0] == "call" and x[1] == ("name", "isinstance") and len(x[2]) == 2 and any(y == keyp for y in subterms(x[2][0])):
+                    c = x[2][1]
+                    for n_ in ([c] if c[0] == "name" else list(c[1]) if c[0] == "tuple" else []):
+                        if n_[0] == "name":
+                            classes.add(n_[1])
+    ok = {"Vector", "slice", "int"} <= classes and bool({"list", "tuple"} & classes)
+    ctx.ob("c.key-forms", f, "dispatch", ok, f"key classes dispatched on: {sorted(classes)}", f.node,
+           message=f"the key dispatch tests {sorted(classes)}; expected mask, slice, int, int vector, int list/tuple")
+    raises = [e for e in it.events if e.kind == "raise" and e.depth == 0 and not e.loops and e.term[0] == "call"
+              and e.term[1] == ("name", "SerifTypeError")
+              and sum(1 for t, pol in flatten_conds(e.conds) if not pol and any(x[0] == "call" and x[1] == ("name", "isinstance")
+                                                                                 for x in subterms(t))) >= 3]
+    ctx.ob("c.key-forms", f, "final-else", bool(raises), "unsupported key types raise SerifTypeError", raises[0].node if raises else f.node,
            message="an unsupported key type does not raise SerifTypeError (the assignment would silently do nothing)")
-    # index branches: normalise + range check before append_update
-    d = Defs(f)
-    adders = {n for n, lst in d.assigns.items() if any(isinstance(v, ast.Lambda) for v, _, _ in lst if v is not None)}
-    for n, lst in d.assigns.items():
-        for v, _, _ in lst:
-            if isinstance(v, ast.Lambda) and isinstance(v.body, ast.Call) and isinstance(v.body.func, ast.Attribute) and v.body.func.attr == "append":
-                adders.add(short(v.body.func))
-    nvars = [n for n, lst in d.assigns.items() if any(v is not None and short(v) == "len(self)" for v, _, _ in lst)]
-    if not nvars:
-        raise AnalysisError("Vector.__setitem__: the length local `n = len(self)` was not found")
-    nv = nvars[0]
-    n_loops = 0
-    for br in forms[3:5]:
-        for lp in [s for s in walk_stmts(br.body) if isinstance(s, ast.For)]:
-            n_loops += 1
-            iv = lp.target.elts[0].id if isinstance(lp.target, ast.Tuple) else lp.target.id
-            problems = _index_checked(lp.body, iv, adders, nv)
-            ctx.ob("c.key-forms", f, f"index-loop:{n_loops}", not problems, f"index `{iv}` normalised and range-checked before it is recorded", lp,
-                   message="; ".join(problems))
-    problems = _index_checked(forms[2].body, key, adders, nv)
-    ctx.ob("c.key-forms", f, "int-branch", not problems, "integer key normalised and range-checked before it is recorded", forms[2],
-           message="; ".join(problems))
-    if n_loops != 4:
-        raise AnalysisError(f"Vector.__setitem__: expected 4 index loops, found {n_loops}")
-
-
-def _index_checked(body: List[ast.stmt], iv: str, adders, nv: str = "n") -> List[str]:
-    seen_norm = seen_check = False
-    probs = []
-    for s in body:
-        if isinstance(s, ast.If) and short(s.test) == f"{iv} < 0" and len(s.body) == 1 and short(s.body[0]) == f"{iv} += {nv}":
-            seen_norm = True
-        elif isinstance(s, ast.If) and short(s.test) == f"not 0 <= {iv} < {nv}" and isinstance(s.body[0], ast.Raise) \
-                and "SerifIndexError" in short(s.body[0]):
-            seen_check = True
-        elif isinstance(s, ast.Expr) and isinstance(s.value, ast.Call) and (short(s.value.func) in adders):
-            if not seen_norm:
-                probs.append(f"index `{iv}` is recorded before negative values are normalised")
-            if not seen_check:
-                probs.append(f"index `{iv}` is recorded without a range check: a bad index would fail (or wrap) during the write phase")
-            if not (s.value.args and short(s.value.args[0]) == iv):
-                probs.append(f"the recorded position is `{short(s.value.args[0]) if s.value.args else '?'}`, not the checked index `{iv}`")
-            return probs
-    probs.append("no update is recorded in this branch")
-    return probs
+    n_idx = 0
+    for e in recs:
+        pos = e.term[2][0][1][0]
+        from_key = any(x == keyp for x in subterms(pos)) and not any(x[0] == "call" and x[1][0] == "attr" and x[1][2] == "indices"
+                                                                     for x in subterms(pos))
+        if not from_key or any(x[0] == "idx" for x in subterms(pos)) and not any(x[0] == "elem" for x in subterms(pos)):
+            continue                  # positions produced by enumerate (mask) or range (slice)
+        if pos[0] == "elem" and pos[1][0] == "obj":
+            continue                  # positions taken from a list the function computed (mask -> list of true positions)
+        n_idx += 1
+        problems = []
+        fc = flatten_conds(e.conds)
+        normal = pos[0] == "ifexp" and pos[1][0] == "cmp" and pos[1][1] == "Lt" and pos[1][3] == const(0) and pos[3] == pos[1][2] \
+            and pos[2] in (("bin", "Add", pos[1][2], N), ("bin", "Add", N, pos[1][2]))
+        if not normal:
+            problems.append(f"position `{show(pos, it)[:60]}` is recorded before negative values are normalised (idx + len(self) if idx < 0)")
+        checked = (("cmp", "LtE", const(0), pos), True) in fc and (("cmp", "Lt", pos, N), True) in fc
+        if not checked:
+            problems.append(f"position `{show(pos, it)[:60]}` is recorded without a range check: a bad index would fail (or wrap) during "
+                            f"the write phase")
+        ctx.ob("c.key-forms", f, f"index:{n_idx}", not problems, "index normalised and range-checked before it is recorded", e.node,
+               message="; ".join(problems))
+    if n_idx < 2:
+        raise AnalysisError(f"Vector.__setitem__: expected recorded positions taken from an int key and from index vectors, found {n_idx}")
 
 
 def _untouched(ctx) -> None:
